@@ -327,7 +327,10 @@ func hasSuffix(s, suf string) bool { return len(s) >= len(suf) && s[len(s)-len(s
 
 // c12Fresh: every store to muxInstance.cache takes the result of a cache constructor
 // called in the same function.
-func c12Fresh(c *core.Ctx) {
+func c12Fresh(c *core.Ctx) { muxCacheFresh(c, "R-C12-5") }
+
+// muxCacheFresh is shared with C11 (a cache carried over a reload keeps routes of the old generation).
+func muxCacheFresh(c *core.Ctx, rule string) {
 	cacheF := structField(c, hs, "muxInstance", "cache")
 	if cacheF == nil {
 		return
@@ -372,7 +375,7 @@ func c12Fresh(c *core.Ctx) {
 			} else if f.Info.Types[rhs].IsNil() {
 				ok = true
 			}
-			c.Check(ok, "R-C12-5", declName(pkg, fd)+"|store to muxInstance.cache", pos(c, at),
+			c.Check(ok, rule, declName(pkg, fd)+"|store to muxInstance.cache", pos(c, at),
 				"assigned a cache created in the same function", "muxInstance.cache is assigned a value that is not a freshly created cache (routes cached by another generation would survive the reload)")
 		}
 		ast.Inspect(fd.Body, func(n ast.Node) bool {
@@ -401,5 +404,5 @@ func c12Fresh(c *core.Ctx) {
 			return true
 		})
 	})
-	c.RequireCount("R-C12-5", "stores to muxInstance.cache", stores, 1)
+	c.RequireCount(rule, "stores to muxInstance.cache", stores, 1)
 }
